@@ -27,6 +27,31 @@
 (* serves the new rules in order: an earlier, merely stat-compatible new   *)
 (* rule consumes the old controller of a later unchanged rule),            *)
 (* "byPosition" and "none" are further broken variants.                    *)
+(*                                                                         *)
+(* ENTRY POINTS.  A module has two load entry points: the whole-set load   *)
+(* (LoadRules) and the per-resource load (LoadRulesOfResource).  The       *)
+(* property quantifies over the entry point PER LOAD, not per history, so  *)
+(* the entry point is a parameter of every Reload action:                  *)
+(*   "res"        per-resource load of the watched resource                *)
+(*   "whole"      whole-set load, the rules of all other resources as they *)
+(*                are                                                      *)
+(*   "wholeOther" whole-set load that also changes another resource's rule *)
+(* Each entry point has an unchanged-detection (Skipped): a load that      *)
+(* re-sends exactly the current lists is ignored; a whole-set load in      *)
+(* which ANOTHER resource changed rebuilds the watched resource's list too *)
+(* even when that list is re-sent as it is.                                *)
+(*                                                                         *)
+(* DEFAULTING.  A token is the caller-visible field tuple BEFORE the       *)
+(* module fills in defaults of optional fields left at their zero value;   *)
+(* Norm[t] is the tuple with the defaults spelled out (a DIFFERENT rule    *)
+(* for the statement).  Every enforced position carries the KEY under      *)
+(* which the store will recognise it.  In the design under test the key is *)
+(* the caller-visible tuple for every entry point (Defaulting = {}).  An   *)
+(* entry point in `Defaulting' stores and compares the defaulted copy      *)
+(* instead: with Defaulting = {"whole"} or {"res"} a rule with an unset    *)
+(* optional field that is loaded through one entry point and re-sent       *)
+(* through the other is no longer recognised (mutants; must violate        *)
+(* ReloadInvisible and EntryPointAgnostic).                                *)
 (***************************************************************************)
 EXTENDS Integers, Sequences, FiniteSets, TLC
 
@@ -79,10 +104,20 @@ CONSTANTS
     Watched,     \* the rule whose state is watched
     MaxLen,      \* bound on list length
     MaxTraffic,  \* bound on the number of traffic events
-    Reuse        \* "statement" | "greedy" | "byPosition" | "none"
+    Reuse,       \* "statement" | "greedy" | "byPosition" | "none"
+    Paths,       \* load entry points explored: subset of AllPaths
+    Norm,        \* [Toks -> Toks]: the tuple with the defaults of its unset optional fields spelled out
+    Defaulting   \* entry points ("whole", "res") that store / compare the defaulted copy; {} in the design under test
+
+AllPaths == {"whole", "wholeOther", "res"}
+\* the entry point behind a load path
+Entry(path) == IF path = "res" THEN "res" ELSE "whole"
+\* unchanged-detection of the entry points: the caller's lists are compared as they were sent (before defaulting)
+Skipped(path, old, new) == new = old /\ path # "wholeOther"
 
 VARIABLES
-    P,      \* primary instance: sequence of [tok, ca (controller age), sa (statistics age)]
+    P,      \* primary instance: sequence of [tok (caller-visible tuple), key (identity kept by the store),
+            \*                                ca (controller age), sa (statistics age)]
     Sh,     \* shadow instance (skips the reloads that leave the watched rule unchanged)
     n,      \* traffic events so far
     ok,     \* the last reload of the primary respected NoStatWasted / EqualKeepsController
@@ -99,55 +134,90 @@ SeqsUpTo(S, k) == IF k = 0 THEN {<< >>}
 Lists == SeqsUpTo(Toks, MaxLen)
 
 \* the algorithm of the pinned code: new rules are served in order from the list of remaining old controllers
-RECURSIVE GreedyFrom(_, _, _, _)
-GreedyFrom(old, rem, new, i) ==      \* rem: remaining old positions, in order
+RECURSIVE GreedyFrom(_, _, _, _, _)
+GreedyFrom(sc, old, rem, new, i) ==      \* rem: remaining old positions, in order
     IF i > Len(new) THEN << >>
     ELSE LET eq   == SelectSeq(rem, LAMBDA j : old[j] = new[i])
-             st   == SelectSeq(rem, LAMBDA j : StatClass[old[j]] # "none" /\ StatClass[old[j]] = StatClass[new[i]])
+             st   == SelectSeq(rem, LAMBDA j : sc[old[j]] # "none" /\ sc[old[j]] = sc[new[i]])
              pick == IF eq # << >> THEN [c |-> eq[1], s |-> eq[1]]
                      ELSE IF st # << >> THEN [c |-> 0, s |-> st[1]]
                      ELSE [c |-> 0, s |-> 0]
              rest == SelectSeq(rem, LAMBDA j : j # pick.s)
-         IN  <<pick>> \o GreedyFrom(old, rest, new, i + 1)
+         IN  <<pick>> \o GreedyFrom(sc, old, rest, new, i + 1)
 
-Match(alg, old, new) ==
-    CASE alg = "statement"  -> ReuseStatement(StatClass, old, new)
-      [] alg = "greedy"     -> GreedyFrom(old, [j \in DOMAIN old |-> j], new, 1)
+\* what reuse algorithm `alg' does with the reload old -> new (sc: statistic-parameter classes of the tokens)
+MatchSC(alg, sc, old, new) ==
+    CASE alg = "statement"  -> ReuseStatement(sc, old, new)
+      [] alg = "greedy"     -> GreedyFrom(sc, old, [j \in DOMAIN old |-> j], new, 1)
       [] alg = "byPosition" -> [i \in DOMAIN new |-> IF i \in DOMAIN old /\ old[i] = new[i] THEN [c |-> i, s |-> i]
-                                                     ELSE IF i \in DOMAIN old /\ StatClass[old[i]] # "none" /\ StatClass[old[i]] = StatClass[new[i]]
+                                                     ELSE IF i \in DOMAIN old /\ sc[old[i]] # "none" /\ sc[old[i]] = sc[new[i]]
                                                           THEN [c |-> 0, s |-> i] ELSE [c |-> 0, s |-> 0]]
       [] alg = "none"       -> [i \in DOMAIN new |-> [c |-> 0, s |-> 0]]
+Match(alg, old, new) == MatchSC(alg, StatClass, old, new)
 
-Apply(inst, new, m) ==
+\* identity under which a rule sent through `path' is stored and compared
+Key(path, t)      == IF Entry(path) \in Defaulting THEN Norm[t] ELSE t
+KeysOf(inst)      == [i \in DOMAIN inst |-> inst[i].key]
+KeyList(path, s)  == [i \in DOMAIN s |-> Key(path, s[i])]
+\* what the reuse algorithm does with list `new' sent through `path' (it sees the stored keys)
+MatchVia(alg, inst, path, new) == Match(alg, KeysOf(inst), KeyList(path, new))
+
+Apply(inst, path, new, m) ==
     [i \in DOMAIN new |-> [tok |-> new[i],
+                           key |-> Key(path, new[i]),
                            ca  |-> IF m[i].c # 0 THEN inst[m[i].c].ca ELSE 0,
                            sa  |-> IF m[i].s # 0 THEN inst[m[i].s].sa ELSE 0]]
-Load(alg, inst, new) == Apply(inst, new, Match(alg, ToksOf(inst), new))
+\* one load of list `new' through `path' on instance `inst' (sc: statistic-parameter classes)
+LoadSC(alg, sc, inst, path, new) ==
+    IF Skipped(path, ToksOf(inst), new) THEN inst ELSE Apply(inst, path, new, MatchSC(alg, sc, KeysOf(inst), KeyList(path, new)))
+Load(alg, inst, path, new) == LoadSC(alg, StatClass, inst, path, new)
+\* one traffic event: every controller and every statistic absorbs it
+Aged(sc, inst) == [i \in DOMAIN inst |-> [inst[i] EXCEPT !.ca = @ + 1, !.sa = IF sc[inst[i].tok] = "none" THEN 0 ELSE @ + 1]]
 
 Init == P = << >> /\ Sh = << >> /\ n = 0 /\ ok = TRUE /\ kept = 0 /\ h = << >>
 
-Reload(new) ==
-    LET old == ToksOf(P)
-        m   == Match(Reuse, old, new)
-        un  == Unchanged(old, new, Watched)
-    IN  /\ P' = Apply(P, new, m)
+\* the clauses of the statement speak about the caller-visible tuples
+Respected(old, new, m) == NoStatWasted(StatClass, old, new, m) /\ EqualKeepsController(old, new, m)
+
+\* a load of list `new' through `path'; m = what the reuse algorithm does with it, resp = Respected(old, new, m)
+ReloadWith(path, new, m, resp) ==
+    LET old  == ToksOf(P)
+        un   == Unchanged(old, new, Watched)
+        skip == Skipped(path, old, new)
+    IN  /\ P' = IF skip THEN P ELSE Apply(P, path, new, m)
         \* the shadow skips the reload if the watched rule is unchanged by it; a reload that introduces or removes the
         \* watched rule is no "reload of an unchanged rule": the comparison restarts from the primary's new state
         /\ Sh' = IF un THEN Sh ELSE P'
         /\ kept' = IF un THEN Min2(kept, Count(new, Watched)) ELSE Count(new, Watched)
-        /\ ok' = (NoStatWasted(StatClass, old, new, m) /\ EqualKeepsController(old, new, m))
-        /\ h' = Append(h, [op |-> "reload", old |-> old, new |-> new])
+        /\ ok' = (skip \/ resp)
+        /\ h' = Append(h, [op |-> "reload", path |-> path, old |-> old, new |-> new])
         /\ UNCHANGED n
+
+Reload(path, new) ==
+    LET m == MatchVia(Reuse, P, path, new) IN ReloadWith(path, new, m, Respected(ToksOf(P), new, m))
+
+\* \E path \in Paths : Reload(path, new), with the reuse relation evaluated once per distinct key list: the key list
+\* depends on the entry point only, and only where Defaulting is not empty.  (TLC re-evaluates an action-level LET
+\* definition at every use; a bound variable of a singleton set is evaluated once.)
+ReloadAny(new) ==
+    LET old == ToksOf(P)
+        kW  == KeyList("whole", new)
+        kR  == KeyList("res", new)
+    IN  \E mW \in {Match(Reuse, KeysOf(P), kW)} :
+        \E mR \in {IF kR = kW THEN mW ELSE Match(Reuse, KeysOf(P), kR)} :
+        \E rW \in {Respected(old, new, mW)} :
+        \E rR \in {IF kR = kW THEN rW ELSE Respected(old, new, mR)} :
+        \E path \in Paths : IF Entry(path) = "res" THEN ReloadWith(path, new, mR, rR) ELSE ReloadWith(path, new, mW, rW)
 
 Traffic ==
     /\ n < MaxTraffic
     /\ n' = n + 1
-    /\ P'  = [i \in DOMAIN P  |-> [P[i]  EXCEPT !.ca = @ + 1, !.sa = IF StatClass[P[i].tok] = "none" THEN 0 ELSE @ + 1]]
-    /\ Sh' = [i \in DOMAIN Sh |-> [Sh[i] EXCEPT !.ca = @ + 1, !.sa = IF StatClass[Sh[i].tok] = "none" THEN 0 ELSE @ + 1]]
+    /\ P'  = Aged(StatClass, P)
+    /\ Sh' = Aged(StatClass, Sh)
     /\ h' = Append(h, [op |-> "traffic"])
     /\ UNCHANGED <<ok, kept>>
 
-Next == Traffic \/ \E new \in Lists : Reload(new)
+Next == Traffic \/ \E new \in Lists : ReloadAny(new)
 Spec == Init /\ [][Next]_vars
 
 ---------------------------------------------------------------------------
@@ -155,12 +225,21 @@ Spec == Init /\ [][Next]_vars
 
 WatchedStates(inst) == LET s == SelectSeq(inst, LAMBDA e : e.tok = Watched) IN [i \in DOMAIN s |-> <<s[i].ca, s[i].sa>>]
 \* reloading is behaviourally invisible for the unchanged rule: same state as if the reloads had not happened
-ReloadInvisible ==
-    LET a == WatchedStates(P)  b == WatchedStates(Sh) IN
-    /\ kept <= Len(a) /\ kept <= Len(b)
-    /\ \A k \in 1..kept : a[k] = b[k]
+InvisibleOn(p, sh, kp) ==
+    LET a == WatchedStates(p)  b == WatchedStates(sh) IN
+    /\ kp <= Len(a) /\ kp <= Len(b)
+    /\ \A k \in 1..kp : a[k] = b[k]
+ReloadInvisible == InvisibleOn(P, Sh, kept)
 \* the watched rule is present in the shadow exactly when it is present in the primary
 SamePresence == (Count(ToksOf(P), Watched) > 0) = (Count(ToksOf(Sh), Watched) > 0)
 \* a modified rule with unchanged statistic parameters keeps its statistics; identical rules keep their controller
 ReuseRespected == ok
+\* the entry point is irrelevant: whatever list is sent next, every entry point that does not ignore the load hands
+\* out the old controllers / statistics in the same way - also for positions loaded through the OTHER entry point
+EntryPointAgnostic ==
+    \A new \in Lists : \A p1, p2 \in Paths :
+        (~Skipped(p1, ToksOf(P), new) /\ ~Skipped(p2, ToksOf(P), new) /\ KeyList(p1, new) # KeyList(p2, new))   \* (equal key lists: trivially alike)
+            => MatchVia(Reuse, P, p1, new) = MatchVia(Reuse, P, p2, new)
+\* in the design under test the store recognises a rule by the tuple the caller sent
+IdentityIsCallerTuple == \A i \in DOMAIN P : P[i].key = P[i].tok
 =============================================================================
